@@ -843,6 +843,120 @@ def r6_access_route_tail(run):
               runtime_witness='X-Forwarded-For: 10.0.0.1, 192.0.2.43 from peer 10.0.0.1: the two stacks report different access_route / remote_addr')
 
 
+# ---------------------------------------------------------------------------
+# R7 the three copies of media rendering perform the same stores on the response
+# ---------------------------------------------------------------------------
+
+def _render_stores(p, f: Func):
+    """(block, receiver text, attributes of the response stored inside the
+    `<resp>._media_rendered is _UNSET` block) for each such block in f."""
+    out = []
+    for n in walk_no_nested(f.node):
+        if not isinstance(n, ast.If):
+            continue
+        t = n.test
+        if not (isinstance(t, ast.Compare) and len(t.ops) == 1 and isinstance(t.ops[0], ast.Is)
+                and isinstance(t.left, ast.Attribute) and t.left.attr == '_media_rendered'):
+            continue
+        recv = unparse(t.left.value)
+        attrs = set()
+        for st in n.body:
+            for x in walk_self(st):
+                if isinstance(x, (ast.Assign, ast.AnnAssign, ast.AugAssign)):
+                    tg = x.targets if isinstance(x, ast.Assign) else [x.target]
+                    for tt in tg:
+                        if isinstance(tt, ast.Attribute) and unparse(tt.value) == recv:
+                            attrs.add(tt.attr)
+        out.append((n, recv, attrs))
+    return out
+
+
+def r7_render_sibling_stores(run):
+    p = run.project
+    sibs = [p.func('falcon.response.Response.render_body'), p.func('falcon.asgi.response.Response.render_body'),
+            p.func('falcon.asgi.app.App.__call__')]
+    found = {}
+    for f in sibs:
+        run.use(f)
+        blocks = _render_stores(p, f)
+        if len(blocks) != 1:
+            raise UnknownIdiom('%s: expected one `_media_rendered is _UNSET` block, found %d' % (f.qual, len(blocks)))
+        found[f.qual] = blocks[0]
+    ref_q = sibs[0].qual
+    ref = found[ref_q][2]
+    if '_media_rendered' not in ref:
+        raise AnchorError('%s does not store the rendered media' % ref_q)
+    for f in sibs[1:]:
+        node, recv, attrs = found[f.qual]
+        run.check(attrs == ref, 'the media-rendering copy in %s stores the same response attributes as Response.render_body '
+                                '(the default media type written to content_type is what both stacks later emit)' % f.qual, f, node.test,
+                  where=f.loc(node), witness=['%s: %s' % (ref_q, sorted(ref)), '%s: %s' % (f.qual, sorted(attrs))],
+                  runtime_witness='resp.media set, no explicit content type, status 204/304: WSGI sends content-type: application/json, ASGI sends none')
+
+
+# ---------------------------------------------------------------------------
+# R8 per-request attributes are bound on every constructor path (or fall back
+# to an immutable class-level default)
+# ---------------------------------------------------------------------------
+
+def _self_attr_stores(node):
+    out = set()
+    for x in node.walk() if hasattr(node, 'walk') else ():
+        pass
+    return out
+
+
+def r8_ctor_definite_assignment(run):
+    p = run.project
+    for cq in (WSGI_REQ, ASGI_REQ):
+        c = p.cls(cq)
+        f = p.func(cq + '.__init__')
+        cfg = cfg_of(f, p)
+        run.use_cfg(cfg)
+
+        def stores(n):
+            res = set()
+            if n.kind == 'stmt' and isinstance(n.ast, (ast.Assign, ast.AnnAssign, ast.AugAssign)):
+                tg = n.ast.targets if isinstance(n.ast, ast.Assign) else [n.ast.target]
+                if isinstance(n.ast, ast.AnnAssign) and n.ast.value is None:
+                    return res
+                for t in tg:
+                    for tt in (t.elts if isinstance(t, (ast.Tuple, ast.List)) else [t]):
+                        if isinstance(tt, ast.Attribute) and isinstance(tt.value, ast.Name) and tt.value.id == 'self':
+                            res.add(tt.attr)
+            return res
+
+        some = set()
+        for n in cfg.live_nodes():
+            some |= stores(n)
+
+        def transfer(n, facts, label):
+            if label == 'exc':
+                return facts
+            return facts | frozenset(stores(n))
+
+        IN = flow.forward(cfg, transfer, frozenset(), must=True)
+        always = IN.get(cfg.exit, frozenset())
+        n_cond = 0
+        for attr in sorted(some - set(always)):
+            n_cond += 1
+            owner, default = p.lookup_class_attr(cq, attr)
+            if default is None:
+                run.fail('%s binds self.%s on some constructor paths only and the class has no default for it' % (cq, attr), f,
+                         'self.%s conditionally bound, no class default' % attr,
+                         runtime_witness='AttributeError on the paths that skip the assignment')
+                continue
+            imm = isinstance(default, ast.Constant) or (isinstance(default, ast.Tuple) and not default.elts) \
+                or (isinstance(default, ast.Name) and default.id in ('_UNSET', 'None')) \
+                or (isinstance(default, ast.UnaryOp) and isinstance(default.operand, ast.Constant))
+            run.check(imm, '%s.%s is bound on some constructor paths only, so the other paths use the class-level default: '
+                           'it must be immutable (a mutable default is one object shared by every request)' % (cq, attr), f,
+                      'class default %s = %s' % (attr, short(default, 60)), where=owner.loc(owner.attr_nodes.get(attr)),
+                      runtime_witness='every request without a query string shares one params dict: req.params.setdefault(...) in one request is visible in the next; WSGI and ASGI disagree')
+        run.ok('%s: %d attribute(s) bound on every path, %d conditionally bound with an immutable class default' % (cq, len(always), n_cond), f.loc(),
+               'definite assignment in %s.__init__' % cq)
+
+
 def check(run):
     run.assume('whole-behaviour equality is not decided; the parity obligations between the hand-duplicated siblings are')
     run.assume('R4 (dispatch parity) = C03 R1 + C04 R3 + C05 R3/R4: decided by those checks, not re-evaluated here')
@@ -852,5 +966,7 @@ def check(run):
     run.rule('R1', r1_override_completeness, 'no public ASGI request member reaches a base body that needs WSGI-only state', floor=60)
     run.rule('R2', r2_accessor_parity, 'accessor / constructor parity: escape sets, consulted headers, raised errors', floor=40)
     run.rule('R3', r3_constructor_parity, 'constructor parity: trailing slash, query-string options, content type', floor=10)
+    run.rule('R8', r8_ctor_definite_assignment, 'per-request attributes bound on every constructor path or immutable class default', floor=2)
+    run.rule('R7', r7_render_sibling_stores, 'render siblings perform the same stores on the response', floor=2)
     run.rule('R6', r6_access_route_tail, 'access_route: peer appended under the same condition in both stacks', floor=1)
     run.rule('R5', r5_driver_tables, 'test drivers provide what the request classes read; header-name mangling agrees', floor=12)
